@@ -784,7 +784,11 @@ def w_list_arguments(task):
 def reuse_alphabet():
     x, y = ("x",), ("y",)
     s_ = ("add", ("multiply", x, y), x)
-    recipes = [("multiply", s_, s_), ("select", ("lt", x, y), ("sqrt", ("absolute", x)), ("add", y, ("c", 0.5))), ("multiply", ("ref", "t", ("add", x, y)), ("ref", "t", ("add", x, y)))]
+    ra = ("ref", "a", ("add", x, y))
+    rs, ra2 = ("ref", "s", ("add", x, y)), ("ref", "a", ("multiply", x, y))
+    recipes = [("multiply", s_, s_), ("select", ("lt", x, y), ("sqrt", ("absolute", x)), ("add", y, ("c", 0.5))), ("multiply", ("ref", "t", ("add", x, y)), ("ref", "t", ("add", x, y))),
+               # the same user-chosen name for different expressions in consecutive definitions, around a shared sub-expression
+               ("multiply", ra, ra), ("subtract", ("add", ("multiply", rs, ra2), rs), ra2)]
     types = {"python": ["float", "complex"], "numpy": ["float32", "float64", "complex64"], "cpp": ["float32", "float64"]}
     return recipes, types
 
